@@ -32,6 +32,7 @@ registry! {
     "C23" => c23,
     "C24" => c24,
     "C07" => c07,
+    "C08" => c08,
     "C10" => c10,
     "C11" => c11,
     "C12" => c12,
@@ -80,6 +81,9 @@ pub fn replay(path: &str) -> i32 {
     }
 }
 
-pub fn child(_args: &[String]) -> i32 {
-    2
+pub fn child(args: &[String]) -> i32 {
+    match (args.first().map(|s| s.as_str()), args.get(1)) {
+        (Some("c08"), Some(path)) => c08::child_main(path),
+        _ => 2,
+    }
 }
